@@ -515,7 +515,15 @@ class Ops:
         raise Unsupported('comparison of function/class values')
 
     def eq(self, it, a, b):
-        # objects with a user-defined __eq__ are compared by the contract `eq` of their class
+        # objects of a class with a user-defined __eq__: an uninterpreted equivalence (reflexive, symmetric)
+        w = self.world
+        for x, y in ((a, b), (b, a)):
+            if x.ty in w.classes and w.defining_class(x.ty, '__eq__') is not None:
+                E = w.uf('obj_eq!', [IntS, IntS, z3.BoolSort()])
+                i, j = V.oid(x.t), V.oid(y.t)
+                it.assume_axiom(z3.And(E(i, i), E(j, j), E(i, j) == E(j, i)))
+                both = z3.And(V.is_ObjV(x.t), V.is_ObjV(y.t))
+                return z3.If(both, E(i, j), x.t == y.t)
         return pyeq(a.t, b.t)
 
     def contains(self, it, cont, item):
@@ -564,6 +572,10 @@ class Ops:
                               (z3.And(intlike(i), ii < n, ii >= -n), None)], 'index')
             pos = z3.If(ii >= 0, ii, n + ii)
             el = simp(vals.seq_at(items, simp(pos)))
+            if obj.ty and obj.ty.startswith('tuple|') and z3.is_int_value(simp(ii)) and simp(ii).as_long() >= 0:
+                tys = obj.ty.split('|')[1:]
+                j = simp(ii).as_long()
+                elty = tys[j] if j < len(tys) and tys[j] != '?' else None
             self.world.element_kind(it, el, elty)
             return SV(el, elty)
         if k == 1:
